@@ -258,7 +258,7 @@ PROPS = {
                ('u_getters', [r'^parse_datetime$']),
                ('u_capi', [r'^haystack_value_get_datetime_date$', r'^haystack_value_get_datetime_time$'])],
         kani=[dict(harness='k_fixed_tz_utc_iff_zero', klass='complete', schema='raw', family='fixed-tz', target='timezone::fixed_timezone', timeout=600)],
-        witness=['enum:hayson-roundtrip', 'enum:zinc-escape', 'enum:rfc3339-offsets'],
+        witness=['enum:hayson-roundtrip', 'enum:zinc-escape', 'enum:rfc3339-offsets', 'enum:zones'],
         design_ref='DESIGN.md section 4, C06',
         level_text=('Proof (Kani/CBMC, complete over every offset text +-HH:MM with digits 0-9 0-9 : 0-5 0-9) for the one piece of this '
                     'property that is libhaystack\'s own code: fixed_timezone maps an RFC 3339 offset to the zone UTC exactly when the offset is '
